@@ -111,6 +111,9 @@ func c01Run(r *zsim.Run) {
 	}
 	r.Logf("randmode=%d", r.RandMode)
 	tasks := 1 + o.Intn(4)
+	if r.Tier == "thorough" && o.Intn(4) == 0 {
+		tasks = 5 + o.Intn(4) // the thorough tier also draws larger runs
+	}
 	done := 0
 	active := 0
 	sawFailure, sawReject := false, false
